@@ -10,6 +10,7 @@ import (
 	"go/ast"
 	"go/printer"
 	"go/token"
+	"path/filepath"
 	"sort"
 	"strings"
 )
@@ -453,4 +454,114 @@ func srcText2(fset *token.FileSet, n ast.Node) string {
 		return "<unprintable>"
 	}
 	return strings.Join(strings.Fields(buf.String()), " ")
+}
+
+// templateDataFacts: for every `tmpl.Execute(w, x)` in the three packages, the fields of the value handed to the template, with their
+// declared types and the expressions assigned to them.  A field of a type that html/template does not escape (template.HTML, …) or a
+// conversion to such a type in the value expression shows up here.
+func templateDataFacts(b *strings.Builder, repo string) {
+	type row struct{ site, field, typ, val string }
+	var rows []row
+	for _, dir := range []string{".", "samlidp", "samlsp"} {
+		p := parseDir(filepath.Join(repo, dir))
+		// named struct types of the package
+		structs := map[string]*ast.StructType{}
+		for _, fn := range sortedFileNames(p) {
+			for _, d := range p.files[fn].Decls {
+				if g, ok := d.(*ast.GenDecl); ok && g.Tok == token.TYPE {
+					for _, sp := range g.Specs {
+						ts := sp.(*ast.TypeSpec)
+						if st, ok := ts.Type.(*ast.StructType); ok {
+							structs[ts.Name.Name] = st
+						}
+					}
+				}
+			}
+		}
+		for _, fn := range sortedFileNames(p) {
+			for _, d := range p.files[fn].Decls {
+				fd, ok := d.(*ast.FuncDecl)
+				if !ok || fd.Body == nil {
+					continue
+				}
+				// local variables bound to composite literals / declared with a named type
+				lits := map[string]*ast.CompositeLit{}
+				named := map[string]string{}
+				ast.Inspect(fd.Body, func(nd ast.Node) bool {
+					switch x := nd.(type) {
+					case *ast.AssignStmt:
+						if len(x.Lhs) >= 1 && len(x.Rhs) == 1 {
+							if cl, ok := unwrapLit(x.Rhs[0]); ok {
+								lits[exprStr(x.Lhs[0])] = cl
+							}
+							if ce, ok := x.Rhs[0].(*ast.CallExpr); ok && len(x.Lhs) == 2 && strings.HasSuffix(exprStr(ce.Fun), "PostBinding") {
+								named[exprStr(x.Lhs[0])] = "IdpAuthnRequestForm"
+							}
+						}
+					case *ast.DeclStmt:
+						if g, ok := x.Decl.(*ast.GenDecl); ok {
+							for _, sp := range g.Specs {
+								if vs, ok := sp.(*ast.ValueSpec); ok && vs.Type != nil {
+									for _, n := range vs.Names {
+										named[n.Name] = exprStr(vs.Type)
+									}
+								}
+							}
+						}
+					}
+					return true
+				})
+				ast.Inspect(fd.Body, func(nd ast.Node) bool {
+					ce, ok := nd.(*ast.CallExpr)
+					if !ok || len(ce.Args) != 2 {
+						return true
+					}
+					se, ok := ce.Fun.(*ast.SelectorExpr)
+					if !ok || se.Sel.Name != "Execute" {
+						return true
+					}
+					site := dir + "/" + fn + ":" + fd.Name.Name
+					arg := exprStr(ce.Args[1])
+					if cl, ok := lits[arg]; ok {
+						if st, ok := cl.Type.(*ast.StructType); ok {
+							types := map[string]string{}
+							for _, f := range st.Fields.List {
+								for _, n := range f.Names {
+									types[n.Name] = srcText(p.fset, f.Type)
+								}
+							}
+							for _, el := range cl.Elts {
+								if kv, ok := el.(*ast.KeyValueExpr); ok {
+									k := exprStr(kv.Key)
+									rows = append(rows, row{site, k, types[k], srcText(p.fset, kv.Value)})
+								}
+							}
+							return true
+						}
+					}
+					if tn, ok := named[arg]; ok {
+						if st, ok := structs[tn]; ok {
+							for _, f := range st.Fields.List {
+								for _, n := range f.Names {
+									rows = append(rows, row{site, n.Name, srcText(p.fset, f.Type), "<" + tn + ">"})
+								}
+							}
+							return true
+						}
+					}
+					fail("%s: cannot determine the data handed to Execute (%s)", site, arg)
+					return true
+				})
+			}
+		}
+	}
+	b.WriteString("/-- data handed to every template execution: (site, field, declared type, value expression) -/\ndef templateData : List (String × String × String × String) := [\n")
+	for i, r := range rows {
+		sep := ","
+		if i == len(rows)-1 {
+			sep = ""
+		}
+		fmt.Fprintf(b, "  (%s, %s, %s, %s)%s\n", leanStr(r.site), leanStr(r.field), leanStr(r.typ), leanStr(r.val), sep)
+	}
+	b.WriteString("]\n\n")
 }
